@@ -416,3 +416,21 @@ Proof.
   - contradiction.
   - destruct s as [|p]; [auto|]. do 5 (try (destruct p as [p|p|]; auto)).
 Qed.
+
+(** * the loader: a delivered item is a function of (configurations, tables, line, seed + epoch + position) — for every
+    configuration over the stage tables, whatever file the line came from and whatever rank / world / skip / offset
+    delivers it (C08_BytesProofs.g_item_by_index composed with the purity theorem above) *)
+From TU Require Import C08_Model C08_EndToEnd C08_BytesProofs.
+
+Lemma stage_item_by_position : forall st qs c tk q maxlen seed epoch data lim skip ff rank W i t,
+  In (i, t) (loader_items data (g_fn (pipe_res_t (opq_tab st) (qopq_tab qs) (PGlobal c) tk (QGlobal q) maxlen seed epoch))
+                          lim skip ff rank W) ->
+  exists fl line, nth i data None = Some (fl, line) /\
+    forall fl', pipeline_t (opq_tab st) (qopq_tab qs) (PGlobal c) tk (QGlobal q) maxlen line (item_info seed epoch i fl')
+                = ROk t.
+Proof.
+  intros st qs c tk q maxlen seed epoch data lim skip ff rank W i t H.
+  destruct (g_item_by_index _ _ _ _ _ _ _ _ _ H) as ([fl line] & Hd & Hp).
+  exists fl, line. split; [exact Hd|]. intros fl'. unfold pipe_res_t in Hp. cbn [fst snd] in Hp. rewrite <- Hp.
+  apply pipeline_tab_function_of_seed; reflexivity.
+Qed.
